@@ -122,6 +122,7 @@ fn main() {
     match args[1].as_str() {
         "tables" => print!("{}", tables::dump()),
         "golden-generate" => print!("{}", golden::generate(20261001)),
+        "golden-generate-seams" => print!("{}", golden::generate_seams(20261002)),
         "corr" => {
             let prop = &args[2];
             let thorough = args[3] == "thorough";
